@@ -249,7 +249,7 @@ class FuncContract:
     self.info = extract.get_func(key)
     self.defs = defs or {}
     self.uses = 0
-    self.calls = []  # actual argument values, in call order
+    self.call_args = []  # actual argument values, in call order
     self.results = []  # fresh result values handed to callers, in call order (so that a caller's obligations can name them)
 
   def _bind(self, ex, args, kw):
@@ -296,7 +296,7 @@ class FuncContract:
       f = tobool(eval_contract_expr(ex, cfr, text, genv, result=res))
       ex.assume(zb(f) if head is True else z3.Implies(head, zb(f)))
     self.results.append(res)
-    self.calls.append(vals)
+    self.call_args.append(vals)
     return res
 
   def verify(self, prefix=None, contracts=None, timeout_ms=None, pre=None, lemmas=(), chain=False, cases=None):
